@@ -172,6 +172,13 @@ class Node(object):
         from code_data import _cli
 
         outs = []
+        extra = list(p.get("extra_path") or [])
+        for e in extra:
+            sys.path.insert(0, e)
+        if extra:
+            import importlib
+
+            importlib.invalidate_caches()
         for argv in p["argvs"]:
             buf = io.StringIO()
             err = io.StringIO()
@@ -194,6 +201,9 @@ class Node(object):
                 sys.argv = old_argv
                 os.chdir(cwd)
             outs.append({"status": status, "stdout": buf.getvalue()})
+        for e in extra:
+            if e in sys.path:
+                sys.path.remove(e)
         return {"ok": True, "outs": outs}
 
     def rpc_cli_expect(self, p):
@@ -202,6 +212,23 @@ class Node(object):
 
         flags = p["flags"]
         kind = p["source_kind"]
+        extra = list(p.get("extra_path") or [])
+        for e in extra:
+            sys.path.insert(0, e)
+        if extra:
+            import importlib
+
+            importlib.invalidate_caches()
+        try:
+            return self._cli_expect(p, flags, kind)
+        finally:
+            for e in extra:
+                if e in sys.path:
+                    sys.path.remove(e)
+
+    def _cli_expect(self, p, flags, kind):
+        import importlib.util
+
         try:
             if kind == "m":
                 spec = importlib.util.find_spec(p["module"])
